@@ -317,14 +317,24 @@ IDLIST_OPS = [">=", "!>=", "=", "!="]
 ALL_OPS = ["=", "!=", "=~", "!=~", "~", "!~", "~~", "!~~", "<", "<=", ">", ">=", "!>=", "like", "unlike", "ilike", "iunlike"]
 
 
+def _case_in_alphabet(f, s):
+    """case mapping character by character, staying inside the model's alphabet (ASCII + Latin-1): characters whose partner
+    lies outside it (ÿ/Ÿ, µ/Μ, ß/SS) are left alone"""
+    out = []
+    for ch in s:
+        m = f(ch)
+        out.append(m if len(m) == 1 and ord(m) <= 0xFF and ord(ch) <= 0xFF else ch)
+    return "".join(out)
+
+
 def mutate_case(rng, s):
     r = rng.random()
     if r < 0.3:
-        return s.upper()
+        return _case_in_alphabet(str.upper, s)
     if r < 0.6:
-        return s.lower()
+        return _case_in_alphabet(str.lower, s)
     if r < 0.8:
-        return s.swapcase()
+        return _case_in_alphabet(str.swapcase, s)
     return s
 
 
